@@ -150,10 +150,19 @@ func unary(c *check, server bool) {
 	for grant := 0; grant < 2; grant++ {
 		for cr := range callResults {
 			for cls := 0; cls < 3; cls++ {
-				for opt := 0; opt < 12; opt++ {
-					// bits 0-1: custom classifiers; opt/4: 0 no naming options, 1 WithName+WithTags first, 2 WithName+WithTags last
+				for optAll := 0; optAll < 16; optAll++ {
+					// bits 0-1: custom classifiers; opt/4: 0 no naming options, 1 WithName+WithTags first, 2 WithName+WithTags last;
+					// 12..15: the four classifier sets with a context that is already cancelled
+					opt, dead := optAll, false
+					if optAll >= 12 {
+						opt, dead = optAll-12, true
+					}
+					callCtx := context.Background()
+					if dead {
+						callCtx = deadCtx()
+					}
 					naming := opt / 4
-					choices := []int{grant, cr, cls, opt}
+					choices := []int{grant, cr, cls, optAll}
 					log := &evlog{}
 					lim := &recLimiter{name: "limiter", grant: grant == 1, log: log}
 					opts := []gl.InterceptorOption{gl.WithLimiter(lim)}
@@ -202,14 +211,14 @@ func unary(c *check, server bool) {
 					what := ""
 					if server {
 						ic := gl.UnaryServerInterceptor(opts...)
-						gotResp, gotErr = ic(context.Background(), "req", &golangGrpc.UnaryServerInfo{FullMethod: "/svc/M"}, func(ctx context.Context, req interface{}) (interface{}, error) {
+						gotResp, gotErr = ic(callCtx, "req", &golangGrpc.UnaryServerInfo{FullMethod: "/svc/M"}, func(ctx context.Context, req interface{}) (interface{}, error) {
 							log.add("call")
 							return res.resp, res.err
 						})
 						what = fmt.Sprintf("unary server grant=%v result=%d classifier=%v(%s) limitExceeded=%v naming-options=%s", grant == 1, cr, custom, kindNames[cls], opt&2 != 0, []string{"none", "first", "last"}[naming])
 					} else {
 						ic := gl.UnaryClientInterceptor(opts...)
-						gotErr = ic(context.Background(), "/svc/M", "req", "reply", nil, func(ctx context.Context, method string, req, reply interface{}, cc *golangGrpc.ClientConn, o ...golangGrpc.CallOption) error {
+						gotErr = ic(callCtx, "/svc/M", "req", "reply", nil, func(ctx context.Context, method string, req, reply interface{}, cc *golangGrpc.ClientConn, o ...golangGrpc.CallOption) error {
 							log.add("call")
 							return res.err
 						})
@@ -270,9 +279,23 @@ type ss struct {
 	golangGrpc.ServerStream
 	log  *evlog
 	next error
+	ctx  context.Context // nil = a live context
 }
 
-func (s *ss) Context() context.Context    { return context.Background() }
+func (s *ss) Context() context.Context {
+	if s.ctx != nil {
+		return s.ctx
+	}
+	return context.Background()
+}
+
+// deadCtx is a context that was cancelled before the call: the peer went away. The interceptors
+// still gate on the limiter and still let the configured classifier choose the outcome.
+func deadCtx() context.Context {
+	c, cancel := context.WithCancel(context.Background())
+	cancel()
+	return c
+}
 func (s *ss) RecvMsg(m interface{}) error { s.log.add("call"); return s.next }
 func (s *ss) SendMsg(m interface{}) error { s.log.add("call"); return s.next }
 
@@ -306,11 +329,17 @@ func streams(c *check, maxLen int) {
 		}
 	}
 	gen(nil)
-	for opt := 0; opt < 12; opt++ {
+	for optAll := 0; optAll < 16; optAll++ {
+		// 0..11: option sets on a live stream context; 12..15: the four classifier sets on a stream whose
+		// context is already cancelled
+		opt, dead := optAll, false
+		if optAll >= 12 {
+			opt, dead = optAll-12, true
+		}
 		naming := opt / 4
 		for _, seq := range seqs {
-			if naming != 0 && len(seq) > 2 {
-				continue // option-order variants: sequences up to 2 are enough
+			if (naming != 0 || dead) && len(seq) > 2 {
+				continue // option-order / dead-context variants: sequences up to 2 are enough
 			}
 			log := &evlog{}
 			recv := &recLimiter{name: "recv", log: log}
@@ -345,8 +374,11 @@ func streams(c *check, maxLen int) {
 				opts = append(opts, gl.WithStreamSendName("s"), gl.WithStreamRecvName("r"))
 			}
 			inner := &ss{log: log}
+			if dead {
+				inner.ctx = deadCtx()
+			}
 			ic := gl.StreamServerInterceptor(opts...)
-			choices := append([]int{opt}, seq...)
+			choices := append([]int{optAll}, seq...)
 			err := ic(nil, inner, &golangGrpc.StreamServerInfo{FullMethod: "/svc/S"}, func(srv interface{}, stream golangGrpc.ServerStream) error {
 				for step, oi := range seq {
 					o := ops[oi]
@@ -374,7 +406,7 @@ func streams(c *check, maxLen int) {
 							wantKind = kindNames[o.cls]
 						}
 					}
-					what := fmt.Sprintf("stream %s (operation %d of %d) grant=%v error=%v custom-classifier=%v(%s) custom-limit-exceeded=%v", name, step+1, len(seq), o.grant == 1, o.err == 1, custom, kindNames[o.cls], opt&2 != 0)
+					what := fmt.Sprintf("stream %s (operation %d of %d) grant=%v error=%v custom-classifier=%v(%s) custom-limit-exceeded=%v context-cancelled=%v", name, step+1, len(seq), o.grant == 1, o.err == 1, custom, kindNames[o.cls], opt&2 != 0, dead)
 					c.expect("stream-"+strings.ToLower(name), choices, log.ev[before:], lim, o.grant == 1, wantKind, what)
 					if o.grant == 1 {
 						if e != inner.next {
